@@ -56,6 +56,12 @@ TRUSTED_BASE = [
 ]
 
 
+def co_owned(prop: str, owner: str, why: str) -> bool:
+    """C07 counts the EOM drift corrections among the phase shifts of a reference: a divergence in the phase
+    bookkeeping of a drift-correcting EOM call (owner C15) is C07's too."""
+    return prop == "C07" and owner == "C15" and ("/refs" in (why or "") or "/ph" in (why or ""))
+
+
 def summarise(spec, res, exact, origin) -> dict:
     """Picklable record of one history (what the parent process needs to account for it)."""
     ops = collections.Counter()
@@ -231,7 +237,7 @@ class SeqProperty:
                 stats["owners"][owner] += 1
                 if amb:
                     ambiguous += 1
-                elif owner == prop:
+                elif owner == prop or co_owned(prop, owner, why):
                     owned_divergences.append(dict(device=spec, ops=rec["ops"][: i + 1], why=why, exact=exact))
                 else:
                     foreign[owner] += 1
@@ -260,7 +266,7 @@ class SeqProperty:
         if prop in ("C07", "C15"):
             import emul_clauses
 
-            n_em = 24 if tier == "quick" else 400
+            n_em = (36 if prop == "C07" else 24) if tier == "quick" else 400
             erng = random.Random(f"{prop}-emul-{seed}")
             emul_stats = dict(cases=0, skipped=0, failed=0)
             for _ in range(n_em):
@@ -430,7 +436,8 @@ class SeqProperty:
             if f.prop == self.prop:
                 print(f"step {i}: {f}")
                 bad = True
-        if res.divergence and res.divergence[1] == self.prop and not res.divergence[3]:
+        if res.divergence and (res.divergence[1] == self.prop or co_owned(self.prop, res.divergence[1], res.divergence[2])) \
+                and not res.divergence[3]:
             bad = True
         if bad:
             print(f"VIOLATION property={self.prop} replay={path}")
